@@ -65,15 +65,19 @@ ASSUMPTIONS = ["node ids are Python ints of either sign (model: Z), written by s
                "is keyed by the NON-NEGATIVE nodes only: the name pattern (\\d+) cannot match a signed id, so a name on a "
                "negative id is outside the reading of 'well-formed instance'",
                "weights are finite Python floats (nan/inf excluded by the quantifier: 'any finite float value')",
-               "metadata values and alternative names contain no \\n / \\r and str.strip() is the identity on them "
-               "(wf_field_rl, the hypothesis of C09_roundtrip / C09_idempotent / C09_header_only); the empty name, '#', ':', "
+               "metadata values and alternative names contain no \\n / \\r; str.strip() is the identity on metadata values "
+               "(wf_field_rl), alternative names only have no TRAILING whitespace (wf_name_rl: they may start with blanks "
+               "/ tabs) - the hypotheses of C09_roundtrip / C09_idempotent / C09_header_only; the empty name, '#', ':', "
                "',' and whole fake header / edge lines as values are included.  In ~90 % of the cases they also contain "
                "none of the other eight str.splitlines boundaries and are checked through parse_file, "
                "get_parsed_instance AND parse_str (C09_roundtrip_str needs the stronger wf_field); in ~10 % a value has "
                "\\x0b \\x0c \\x1c \\x1d \\x1e \\x85 U+2028 U+2029 strictly inside: still inside the hypothesis of the file-path "
                "theorems, checked through parse_file / get_parsed_instance only (parse_str is not claimed for them)",
+               "WeightedDiGraph.neighbours(n) returns the internal set on the unchanged tree (modifying the result changes "
+               "the graph): outside C09, so the harness never modifies that result (it does modify the sets returned by "
+               "edges() and outgoing_edges() and re-observes)",
                "excluded classes (each with a _refuted witness in Properties/C09.v, run on the implementation as "
-               "'excluded class ...'): \\n or \\r inside a value, outer whitespace of a value, num_edges != number of "
+               "'excluded class ...'): \\n or \\r inside a value, outer whitespace of a metadata value, trailing whitespace of a name / a whitespace-only name, num_edges != number of "
                "edges, no edge, a name on a negative node id",
                "well-formed matching instance: num_edges = number of stored edges, alternatives_name keyed by the "
                "non-negative nodes, num_alternatives = number of nodes, data_type 'wmd', at least one edge"]
@@ -506,6 +510,7 @@ def excluded_cases():
             mk("newline inside a value, rest looks like a header line (C09_newline_silent_refuted)", meta=title("a\n# b")),
             mk("leading blank of a value (C09_outer_space_refuted)", meta=title(" a")),
             mk("trailing form feed of a name (C09_name_trailing_ff_refuted)", nm=[[1, "x\x0c"], [3, "c"]]),
+            mk("name made of whitespace only (C09_name_blank_only_refuted)", nm=[[1, " "], [3, "c"]]),
             mk("num_edges is not the number of edges (C09_wrong_num_edges_refuted)", ne=5),
             mk("no edge (C09_needs_an_edge)", es=[]),
             mk("name on a negative node id (not expressible in the model: keys of alternatives_name are N)",
@@ -1192,7 +1197,7 @@ def stats(c, r, m):
     if nm_order != sorted(nm_order):
         labels.append("alternatives_name not in ascending id order")
     if any(t and proto.untext(t)[0] in " \t\xa0" for _, t in c["payload"][2]):
-        labels.append("a name that starts with a blank / tab (outside wf_field_rl; kept by the name pattern)")
+        labels.append("a name that starts with a blank / tab (inside wf_name_rl: only trailing whitespace is excluded)")
     if pl[5] == 2:
         labels.append("lifetime: two instances with the same ids alive, A written after B was built; both judged against their payload")
     elif pl[4] or pl[5]:
